@@ -265,7 +265,9 @@ fn rate_matches(boc: &BocData, date: time::Date, got: &Decimal, malformed_cfg: b
         // daily observation must be inverted: |rate * v - 1| < 1e-20
         let prod = got.checked_mul(v);
         match prod {
-            Some(p) => (p - Decimal::ONE).abs() < Decimal::from_str("0.00000000000000000001").unwrap(),
+            // 1e-9: the noise bound the properties use for decimal arithmetic (C01); an inversion
+            // carried to fewer than 28 digits is still "inverted", one rounded to 6 places is not
+            Some(p) => (p - Decimal::ONE).abs() < Decimal::from_str("0.000000001").unwrap(),
             None => false,
         }
     } else {
@@ -665,7 +667,8 @@ impl Engine for C12 {
                 if con.panic.is_some() {
                     push(Violation { kind: "panic".into(), signature: "panic in console application".into(), detail: format!("rows:\n{}{:?}", app_csv(rows), con.panic) }, &mut violations);
                 } else if any_err {
-                    let explained = err_txt.lines().any(|l| !l.trim().is_empty() && !l.starts_with("Fetching"));
+                    // (the explanation may be on either stream)
+                    let explained = err_txt.lines().chain(out_txt.lines()).any(|l| !l.trim().is_empty() && !l.starts_with("Fetching"));
                     if con_ok || out_txt.contains("Transactions for") {
                         if !(malformed_cfg && con_ok) {
                             push(Violation { kind: "console_accepts_invalid".into(), signature: "console run prints tables although a needed rate does not exist".into(), detail: format!("today {} published_today {} rows:\n{}expected {:?}\nstdout starts: {:?}", today, pt, app_csv(rows), expected, out_txt.lines().next()) }, &mut violations);
@@ -954,7 +957,7 @@ impl Engine for C12 {
         "exploration"
     }
     fn rule(&self) -> String {
-        "Per simulation one seeded publication calendar over 2-4 years (weekends, fixed+random holidays, 0-3 gaps of 3-11 days placed at random / across a year end / in early January; some spans straddle the 2016/2017 noon->daily seam; every published value unique with >=5 decimals), a simulated today, a published-today flag, 4-14 look-up dates biased to today-9..today+2, gap ends +-, Jan 1-8 / Dec 24-31, the seam, plus uniform; each look-up runs the real RateLoader/JsonRemoteRateLoader in a fresh simulated process with an empty cache against SimBoC; 1-2 sequences of 2-5 nearby dates (steps of +-1..4 or +-7/8 days) are looked up by ONE loader in one process (rows of a CSV share a loader), each answer still compared with the model; plus 1-3 application runs (CSV rows with USD/CAD/other currency, with/without explicit rate, separate commission currency) through run_acb_app_to_delta_models and through run_acb_app_to_console (the Amount cell of every USD row on the captured stdout must be 10000 x the expected rate to the cent; a rejected run must explain itself on stderr and print no tables). One fifth of simulations damage 1-4 observations (obs_malformed). One third add 1-2 degraded-network runs: an earlier process (1-370 days before, healthy network, CSV or in-memory cache) leaves its cache, today's process looks 1-4 dates up by one loader while every other request meets a network fault (error / HTML body / truncated JSON / empty body; a third of these runs meet a healthy network instead: a plain run over an earlier run's cache); every Ok must be the model's answer, an Err is accepted only once a fault has fired in that run. The order of the observations in the server's response is a format knob (ascending, descending, a few listed late, a few listed twice, a few of the neighbouring years listed as well). Application runs include return-of-capital rows and, in a third of the simulations, another date format with the matching --date-fmt. In a third of the simulations the processes learn 'today' from the simulated system clock and a per-process TZ (5/8/12 h west, 1/9/13 h east of UTC; local time 01:00-23:00) through the real today_local() instead of the library's test override. Oracle: reference model (rate of the date if in the snapshot; else error if date >= today; else first present of d-1..d-7; else error), exact for noon values, |rate*v-1|<1e-20 for daily. evaluations = simulations; distinct_nontrivial = distinct simulations with at least one look-up that needed a look-back or had no usable rate.".to_string()
+        "Per simulation one seeded publication calendar over 2-4 years (weekends, fixed+random holidays, 0-3 gaps of 3-11 days placed at random / across a year end / in early January; some spans straddle the 2016/2017 noon->daily seam; every published value unique with >=5 decimals), a simulated today, a published-today flag, 4-14 look-up dates biased to today-9..today+2, gap ends +-, Jan 1-8 / Dec 24-31, the seam, plus uniform; each look-up runs the real RateLoader/JsonRemoteRateLoader in a fresh simulated process with an empty cache against SimBoC; 1-2 sequences of 2-5 nearby dates (steps of +-1..4 or +-7/8 days) are looked up by ONE loader in one process (rows of a CSV share a loader), each answer still compared with the model; plus 1-3 application runs (CSV rows with USD/CAD/other currency, with/without explicit rate, separate commission currency) through run_acb_app_to_delta_models and through run_acb_app_to_console (the Amount cell of every USD row on the captured stdout must be 10000 x the expected rate to the cent; a rejected run must explain itself on stderr and print no tables). One fifth of simulations damage 1-4 observations (obs_malformed). One third add 1-2 degraded-network runs: an earlier process (1-370 days before, healthy network, CSV or in-memory cache) leaves its cache, today's process looks 1-4 dates up by one loader while every other request meets a network fault (error / HTML body / truncated JSON / empty body; a third of these runs meet a healthy network instead: a plain run over an earlier run's cache); every Ok must be the model's answer, an Err is accepted only once a fault has fired in that run. The order of the observations in the server's response is a format knob (ascending, descending, a few listed late, a few listed twice, a few of the neighbouring years listed as well). Application runs include return-of-capital rows and, in a third of the simulations, another date format with the matching --date-fmt. In a third of the simulations the processes learn 'today' from the simulated system clock and a per-process TZ (5/8/12 h west, 1/9/13 h east of UTC; local time 01:00-23:00) through the real today_local() instead of the library's test override. Oracle: reference model (rate of the date if in the snapshot; else error if date >= today; else first present of d-1..d-7; else error), exact for noon values, |rate*v-1|<1e-9 for daily. evaluations = simulations; distinct_nontrivial = distinct simulations with at least one look-up that needed a look-back or had no usable rate.".to_string()
     }
     fn state_measure(&self) -> String {
         "distinct (look-back depth 0..7|none, crosses year, series, relation of date to today, malformed config) tuples".to_string()
